@@ -26,8 +26,8 @@ def sh(cmd, cwd=None, env=None, timeout=3600):
     return p.returncode, p.stdout
 
 
-def confirm(pid, k, name):
-    wt = "/tmp/wt/%s" % pid
+def confirm(pid, k, name, root="/tmp/wt"):
+    wt = "%s/%s" % (root, pid)
     src = "%s/_seeded/m%s" % (wt, k)
     env = {"PYTHONPATH": wt + "/src/python"}
     ran = []
@@ -97,7 +97,7 @@ def run(name, checks, tier="quick"):
 
 if __name__ == "__main__":
     if sys.argv[1] == "confirm":
-        sys.exit(confirm(sys.argv[2], sys.argv[3], sys.argv[4]))
+        sys.exit(confirm(sys.argv[2], sys.argv[3], sys.argv[4], *(sys.argv[5:6])))
     if sys.argv[1] == "run":
         tier = "quick"
         args = sys.argv[3:]
